@@ -25,8 +25,10 @@ STR_FORMS = ["'x'", "'it''s'", "'a;b'", "'a--b'", "'a/*b'", "'a long string lite
              "'a \n b'", "'a\\'\r\nb'", "'a\rb'", "'\"'", "'a '' \n b'"]
 DOLLAR_FORMS = ['$$x;y$$', "$t$a'b$t$", '$$ $$', '$$a \n b$$', '$$a\r\nb$$']
 # uniform respellings of a whole statement (one deviation each)
-STYLES = [None, 'lead-comma', 'lead-comma-nl', 'blank-all', 'tight', 'nl', 'crlf', 'cm-all', 'cmline-all',
-          'hint-all', 'upper', 'dq-names']
+# uniform respellings that only replace non-empty whitespace / change keyword case (C11)
+WSTYLES = [None, 'nl', 'crlf', 'tabs', 'wide', 'mixed', 'upper', 'title', 'altcase', 'kw-inner-nl', 'upper-nl']
+STYLES = [None, 'lead-comma', 'lead-comma-nl', 'blank-all', 'tight', 'cm-all', 'cmline-all',
+          'hint-all', 'dq-names']
 
 
 def recase(word, how):
@@ -52,6 +54,7 @@ class Builder:
         self.toks = []
         self.si = 0
         self.style = ctx.choose('style', 'style', STYLES)
+        self.wstyle = ctx.choose('wstyle', 'wstyle', WSTYLES)
         self.head = self.tail = ''
         self.kinds = []          # expected get_type per statement (when known)
 
@@ -76,16 +79,16 @@ class Builder:
                 default = ' '
             elif st == 'tight' and gap == 'opt':
                 default = ''
-            elif st == 'nl' and default != '':
-                default = '\n'
-            elif st == 'crlf' and default != '':
-                default = '\r\n'
             elif st == 'cm-all':
                 return ' /* c */ '
             elif st == 'cmline-all':
                 return ' -- c\n'
             elif st == 'hint-all':
                 return ' /*+ h */ '
+        wst = self.wstyle
+        if wst and default != '':
+            default = {'nl': '\n', 'crlf': '\r\n', 'tabs': '\t', 'wide': '   ', 'upper-nl': '\n',
+                       'mixed': ' \t\n '[i % 4:][:2] or ' '}.get(wst, default)
         f = default
         if default != '':
             f = self.ctx.choose('ws', f'ws{i}', [default] + [a for a in WS_REQ if a != default])
@@ -110,11 +113,25 @@ class Builder:
         i = len(self.toks)
         ws_words = words.split(' ')
         how = self.ctx.choose('case', f'case{i}', CASES)
-        if self.style == 'upper':
+        wst = self.wstyle
+        if wst in ('upper', 'upper-nl'):
             how = 'upper'
+        elif wst == 'title':
+            how = 'title'
+        elif wst == 'altcase':
+            how = 'alt'
         parts = [recase(ws_words[0], how)]
         for j, w in enumerate(ws_words[1:]):
-            parts.append(self.ctx.choose('wsk', f'wsk{i}.{j}', WS_INNER))
+            inner = self.ctx.choose('wsk', f'wsk{i}.{j}', WS_INNER)
+            if wst in ('kw-inner-nl', 'nl', 'upper-nl'):
+                inner = '\n'
+            elif wst == 'crlf':
+                inner = '\r\n'
+            elif wst == 'tabs':
+                inner = '\t'
+            elif wst == 'wide':
+                inner = '   '
+            parts.append(inner)
             parts.append(recase(w, how))
         self.emit(''.join(parts), cls, gap, ws)
 
@@ -490,6 +507,10 @@ class Builder:
             self.kw('not')
             self.kw('exists')
         self.tref(k + '.t', 2)
+        if self.pick(k + '.ctas', [False, True]):
+            self.kw('as')
+            self.select(k + '.s', 0)
+            return
         self.p('(', 'opt', ' ')
         n = self.pick(k + '.n', [2, 1, 3])
         for j in range(n):
@@ -639,6 +660,7 @@ SEEDS = [
     ('create-table-3cols', 'create_table', {'s.create_table.n': 3, 's.create_table.ty0': 'varchar(10)',
                                             's.create_table.con0': 'primary key', 's.create_table.ty1': 'numeric(10, 2)',
                                             's.create_table.con1': 'not null', 's.create_table.con2': 'default'}),
+    ('create-table-as-select', 'create_table', {'s.create_table.ctas': True, 's.create_table.s.items.0.e': 'func'}),
     ('create-view', 'create_view', {}),
     ('create-or-replace-view', 'create_view', {'s.create_view.cr': 'create or replace', 's.create_view.s.where': True}),
     ('drop', 'simple', {}),
